@@ -59,7 +59,7 @@ gs.FUNCS.setdefault('np.exp', np.exp)
 gs.FUNCS.setdefault('np.log', np.log)
 gs.FUNCS.setdefault('np.minimum', np.minimum)
 
-GENERIC_KEYS = ('rejected', 'lags-leads-too-short', 'exception-mismatch', 'value-mismatch', 'write-outside-lhs', 'read-wrong-cell',
+GENERIC_KEYS = ('rejected', 'lags-leads-too-short', 'data-not-as-assigned', 'solve_t-rejects-clean-pass', 'exception-mismatch', 'value-mismatch', 'write-outside-lhs', 'read-wrong-cell',
                 'series-missing', 'equation-denotes-differently', 'equation-missing')
 
 
@@ -294,8 +294,7 @@ def observe_(case, rep, want_impl=True):
     lags, leads = exp['lags'], exp['leads']
     n = len(span) if span else lags + leads + 3
     loc_term = ec.make_locate(span)
-    rng = random.Random(case['data_seed'])
-    data0 = gs.random_data(rng, prog, n)
+    data0, plan = ec.data_plan(case, prog, n)
     b = ec.Built(text)
     impl = {'error': b.error}
     rep.dist['stream:' + case['stream'].split(':')[0]] += 1
@@ -360,12 +359,33 @@ def observe_(case, rep, want_impl=True):
         rep.dist['fragment:' + f] += 1
     wrote = False
     first = None
+    # ONE instance for all periods, obtained and filled as the plan says (provenance; per series: list, tuple, ndarray,
+    # one ndarray for several series, another series' own array, views, constructor keywords, replace_values, ...).
+    # Whatever that history was, the instance now holds `data0` in separate series — that is all the property knows.
+    rep.dist['regime:' + plan['regime']] += 1
+    rep.dist['provenance:' + plan['prov'] + ('+copy' if plan['copy_after'] else '')] += 1
+    rep.dist['share:' + (plan['share'][0] if plan['share'] else 'none')] += 1
+    for md in set(plan['modes'].values()):
+        rep.dist['fill:' + md] += 1
+    try:
+        m = ec.build_filled(b.Model, span if span else range(n), data0, plan)
+        held = {nm: np.array(m.__dict__['_' + nm], dtype=float) for nm in data0}
+        bad = ec.same_arrays(data0, held)
+    except Exception as e:  # noqa: BLE001
+        bad = [f'{type(e).__name__}: {e}']
+    if bad:
+        violate('data-not-as-assigned', f'after assigning the data ({plan["modes"]}, share {plan["share"]}, '
+                f'{plan["prov"]}) the instance does not hold them: {bad[0]}')
+        rep.case(text, nontrivial=False)
+        return impl
+    uses_extra = bool(ec.called_functions(prog) & set(EXTRA_FUNCS))
     for t in range(lags, n - leads):
         ref = {k: v.copy() for k, v in data0.items()}
-        m = b.instance(n, data0, span)
+        ec.restore(m, data0)
         log = []
-        ec.install_recorders(m, log)
+        ec.install_recorders(m, log)        # wrapped AFTER the assignments: views of the very same buffers
         w_ref, r_ref, exc_ref = ec.run_reference(prog, ref, t, locate=loc_term, env={'self': m, 'len': len})
+        faults = list(ec.run_reference.faults)
         del log[:]
         exc = evaluate_with(m, t, EXTRA_FUNCS)
         ec.remove_recorders(m)
@@ -394,6 +414,32 @@ def observe_(case, rep, want_impl=True):
         if bad_r:
             violate('read-wrong-cell', f't={t}: read {bad_r[:4]}, the terms of the script are at {sorted(allowed)}')
         wrote = wrote or bool(w_ref)
+        # the same pass through solve_t() with its default error handling: when the script's pass is free of
+        # floating-point faults under NumPy's default error state (underflow is not one) and leaves finite values, one
+        # iteration must complete and leave exactly the values of the pass
+        clean = (not faults and exc_ref is None and not uses_extra and
+                 all(np.all(np.isfinite(v)) for v in ref.values()))
+        if clean:
+            ec.restore(m, data0)
+            try:
+                with warnings.catch_warnings():
+                    warnings.simplefilter('ignore')
+                    m.solve_t(t, max_iter=1, failures='ignore')
+                exc_s = None
+            except Exception as e:  # noqa: BLE001
+                exc_s = f'{type(e).__name__}: {str(e)[:120]}' + (f' <- {type(e.__cause__).__name__}: {e.__cause__}' if e.__cause__ else '')
+            rep.dist['solve_t-route:checked'] += 1
+            if exc_s is not None:
+                violate('solve_t-rejects-clean-pass', f't={t}: the pass has no floating-point fault and finite results '
+                        f'({plan["regime"]} data) but solve_t(t, max_iter=1) raised {exc_s}')
+            else:
+                d3 = ec.same_arrays(ref, {nm: np.array(m.__dict__['_' + nm], dtype=float) for nm in data0})
+                if d3:
+                    nm, p, a, c = d3[0]
+                    violate('value-mismatch' if (nm, p) in set(w_ref) else 'write-outside-lhs',
+                            f't={t}: after solve_t(t, max_iter=1) {nm}[{p}] is {c!r}, one pass of the equations gives {a!r}')
+        else:
+            rep.dist['solve_t-route:skipped-' + ('fault' if faults else 'other')] += 1
         # normalised equations, evaluated by Python itself in symbol order, must give the same pass
         if shadowed:
             rep.dist['equation-text:skipped-series-shadows-called-function-root'] += 1
@@ -508,10 +554,9 @@ def drive_cases(ctx, cases, impls):
                     for term in [st.lhs] + gs.terms_of(st.rhs):
                         if isinstance(term.index, str):
                             labels[ec.term_tok(term)[3]] = loc(term.index)
-            rng = random.Random(case['data_seed'])
             exp = gs.expected_classes(prog)
             n = len(span) if span else exp['lags'] + exp['leads'] + 3
-            data0 = gs.random_data(rng, prog, n)
+            data0, _plan = ec.data_plan(case, prog, n)
             lines.append(ec.line('eval_pass', {'stmts': toks, 't': first['t'], 'lits': ec.literals_of(toks), 'labels': labels,
                                                'data': {nm: [ec.bits(x) for x in data0[nm]] for nm in sorted(data0)}}))
             idx.append((case, impl, True))
